@@ -174,11 +174,19 @@ def run(ctx):
     per_chain = ctx.n(8, 400)
     g = IRGen(ctx.rng, knobs())
     ga = IRGen(ctx.rng, knobs(argparse_domain=True))
+    # the sub-domain on which every single kind is (mostly) faithful: typed, documented, plain defaults --
+    # there a chain has no lossy hop to hide behind, so composition faults stand alone
+    tame = dict(p_untyped=0.0, p_no_doc=0.0, p_none_default=0.0, p_hostile_doc=0.0, p_code_default=0.0, p_return_typ=1.0,
+                p_return_doc=1.0, p_zero_params=0.0)
+    gt = IRGen(ctx.rng, knobs(**tame))
+    gta = IRGen(ctx.rng, knobs(argparse_domain=True, **tame))
     seen_chains = set()
     for rep in range(per_chain):
         for kinds in chains:
             arg = "argparse" in kinds
-            ir, feat = (ga if arg else g).ir()
+            faithful = rep % 4 in (2, 3)
+            ir, feat = ((gta if arg else gt) if faithful else (ga if arg else g)).ir()
+            ctx.feature("ir_from_faithful_subdomain" if faithful else "ir_from_full_domain")
             ctx.case(shape_signature(feat, kinds), nontrivial=feat["n_params"] > 0 or feat["has_return"],
                      sample={"chain": list(kinds), "ir": ir_jsonable(ir)}, sample_key=len(kinds))
             ctx.feature("first=" + kinds[0])
